@@ -18,6 +18,6 @@ if [ "${DEMO:-0}" = 1 ] && [ -f "$d/demo_test.go" ]; then
   if (cd "$wt" && go test -vet=off -count=1 -run "^${name}\$" . >/dev/null 2>&1); then echo "SEED $(basename $d): demo PASSES with the change (not a valid seed here)"; else echo "SEED $(basename $d): demo fails with the change (as intended)"; fi
   rm -f "$wt/zz_demo_test.go"
 fi
-out=$(cd /verif && VERIF_REPO="$wt" ./check "$prop" "$tier" 2>&1); rc=$?
+out=$(cd /verif && VERIF_EVIDENCE_DIR="/tmp/st_evidence_$$" VERIF_REPO="$wt" ./check "$prop" "$tier" 2>&1); rc=$?; rm -rf "/tmp/st_evidence_$$"
 echo "$out" | grep -E "^VIOLATION|^OK|^KNOWN|MACHINERY" | cut -c1-200 | head -5
 echo "SEED $(basename $d) property=$prop check-exit=$rc $([ $rc = 1 ] && echo CAUGHT || echo MISSED)"
